@@ -210,6 +210,7 @@ func scenariosC14() []scen {
 				// bursts that overflow the (small) queues: the drop paths return buffers, too
 				scen{name: "5slow-burst", batch: b, nosib: true, ext3: [][]string{{"badmac"}, {"badmac"}, {"badmac"}, {"badmac"}, {"badmac"}}, early: early},
 				scen{name: "5fwd-burst", batch: b, nosib: true, ext3: [][]string{{"fwd"}, {"fwd"}, {"fwd"}, {"fwd"}, {"fwd"}}, bfd: 1, early: early},
+				scen{name: "slow-declines", batch: b, nosib: true, ext3: [][]string{{"scmperr"}, {"badmac"}, {"scmperr"}}, early: early},
 				scen{name: "bfd-burst", batch: b, nosib: true, ext3: [][]string{{"fwd"}}, bfd: 3, early: early},
 				scen{name: "4garbage+host-burst", batch: b, nosib: true, ext3: [][]string{{"garbage"}, {"garbage"}, {"badmac"}, {"fwd"}}, internal: [][]string{{"stun"}, {"host"}, {"stun"}}, early: early},
 			)
@@ -257,6 +258,8 @@ func packetKinds(cfg *rtr.Cfg) map[string]rxPkt {
 		"fwd":     {ser(fwd, nil), ext},
 		"badmac":  {ser(fwd, func(p *rtr.Pkt) { p.HopRef(fwd.V[0].Hop).Mac[3] ^= 0x40 }), ext},
 		"garbage": {[]byte{0, 0, 0, 1, 17, 9, 0, 0, 1, 0, 0, 0, 1, 2, 3}, ext},
+		// an SCMP error message with a bad hop MAC: goes to the slow path, which declines to answer it (error branch)
+		"scmperr": {ser(fwd, func(p *rtr.Pkt) { p.HopRef(fwd.V[0].Hop).Mac[3] ^= 0x40; p.SetSCMP(1, 0, make([]byte, 20)) }), ext},
 		"tosib":   {ser(find(rtr.FromExt(3), 12, false), nil), ext},
 		"fromsib": {ser(find(rtr.FromSibling(13), 2, false), nil), sib},
 		"host":    {ser(find(rtr.FromHost, 2, false), nil), host},
